@@ -8,7 +8,10 @@ from vf.runner import Ob, ObResult, enc
 CLAIM = (
     "C02 (mechanisms): the text of an error about two conflicting declarations is the same "
     "whichever of the two arrived first (symbolic execution of the real message functions over all "
-    "role/creator/authorship combinations)."
+    "role/creator/authorship combinations); and no completion or file update, in whatever order the "
+    "scheduler happens to run them, leaves a step deferred whose dynamic inputs are all available "
+    "(the deferred flag is the only thing that makes the outcome depend on who finished first): "
+    "inductive step over the real mark_completed / update_file_hashes / mark_step_pending (E-SQL)."
 )
 OUTSIDE = [
     "the graph after a build for every job count / dispatch order (whole builds with subprocesses are not encoded)",
@@ -31,8 +34,64 @@ def _mk(oid, cond, pre, what):
     return fn
 
 
+JUDGE_DEFERRED = '''        def JUDGE(S0, S1, margs):
+            def stuck(S):
+                out = []
+                for s, r in S["step"].items():
+                    if not r[2]:
+                        continue
+                    blocked = False
+                    for _, a, b, dyn in S["dep"]:
+                        if b == s and dyn and a in S["file"]:
+                            st, det = S["file"][a][1], S["node"][a][4]
+                            if st == 18 or (not det and st in (15, 17)):
+                                blocked = True
+                    if not blocked:
+                        out.append(s)
+                return out
+            if stuck(S0):
+                return ["precondition"]
+            return [("deferred although every dynamic input is available", s) for s in stuck(S1)]
+'''
+
+
+def _deferred_ok(wf):
+    """deferred => some dynamic input is unavailable (written from the dispatch rule of C10)."""
+    import z3
+
+    from vf.symsql.values import bz
+
+    cons = []
+    for j in range(wf.K):
+        s = wf.steps[j]
+        blocks = []
+        for d, r in enumerate(wf.deps):
+            for f in range(wf.K):
+                e = z3.And(bz(r.present), r.vals["sink"].v == j + 1, r.vals["source"].v == f + 1, bz(wf.files[f].present), wf.is_dyn(d))
+                blocks.append(z3.And(e, wf.unavailable_input(f, z3.BoolVal(True))))
+        cons.append(z3.Implies(z3.And(bz(s.present), s.vals["deferred"].v != 0), z3.Or(*blocks) if blocks else z3.BoolVal(False)))
+    return cons
+
+
+def _mk_def(name):
+    def fn(tier):
+        import z3
+
+        from vf.props import C09
+        from vf.runner import ObResult
+
+        def post(wf, aux):
+            return [z3.Not(c) for c in _deferred_ok(wf)]
+
+        return C09.explore_op(ObResult(), "O02", name, tier, post, "leaves a step deferred although all its dynamic inputs are available", judge_src=JUDGE_DEFERRED, extra_pre=_deferred_ok, key=f"O2.5:{name}")
+
+    return fn
+
+
+DEF_OPS = ["mark_completed(success)", "mark_completed(failure)", "update_file_hashes(SUCCEEDED)", "update_file_hashes(EXTERNAL)", "mark_step_pending"]
+
 OBLIGATIONS = [
     Ob("O2.1a", _mk("O2.1a", "file_collision_symmetric", "0 <= ra < 3 and 0 <= rb < 3 and 0 <= ca < 3 and 0 <= cb < 3", "_file_collision_message is symmetric in its two declarations"), "file collision message symmetric"),
     Ob("O2.1b", _mk("O2.1b", "duplicate_messages_symmetric", "0 <= ca < 3 and 0 <= cb < 3", "duplicate step / static tree messages are symmetric"), "duplicate messages symmetric"),
     Ob("O2.1c", _mk("O2.1c", "claim_collision_symmetric", "0 <= ra < 3 and 0 <= rb < 3 and 0 <= na < 3 and 0 <= nb < 3", "_claim_collision_message does not depend on which declaration already exists"), "claim collision message symmetric"),
-]
+] + [Ob(f"O2.5{chr(97 + k)}", _mk_def(n), f"{n} leaves no step deferred without an unavailable dynamic input", weight=3, timeout={"quick": 2400, "thorough": 7200}) for k, n in enumerate(DEF_OPS)]
